@@ -58,7 +58,8 @@ RULE = ("case = (operator, d, time argument or not, number of outputs m, eager|j
         "unrelated equation parameters, and (time cases) the value of the time-free operator on the field frozen "
         "at t; non-trivial = at least one item whose observed value is non-zero and whose field has a non-zero "
         "second derivative in at least two coordinates (counting t) -- for d = 1 without time: a non-zero second "
-        "derivative; distinct = distinct case dicts")
+        "derivative; distinct = distinct case dicts"
+        " Plus the forward-mode versions of the same operators on real separable networks (SPINN) with genuinely quadratic polynomial features, batches smaller than, equal to and larger than the dimension, every grid entry against the operator's value of the pointwise twin at its grid point.")
 ASSUMPTIONS = [
     "JAX AD contract: grad(f, argnum=k)[i] is the i-th partial derivative in positional argument k; "
     "hessian(f, argnums=k)[i][j] = d_j d_i f (modelled by FieldOps.dX / dT)",
